@@ -170,13 +170,19 @@ fn handle_client_setname(parts: &[RespFrame], connections: &impl ConnectionProvi
     }
     
     let name = match &parts[2] {
-        RespFrame::BulkString(Some(bytes)) => String::from_utf8_lossy(bytes).to_string(),
+        RespFrame::BulkString(Some(bytes)) => {
+            // A name appears in CLIENT LIST lines: printable characters only, no spaces
+            if bytes.iter().any(|&b| b < b'!' || b > b'~') {
+                return Ok(RespFrame::error("ERR Client names cannot contain spaces, newlines or special characters."));
+            }
+            String::from_utf8_lossy(bytes).to_string()
+        }
         _ => return Ok(RespFrame::error("ERR syntax error")),
     };
     
-    // Set the name on the connection
+    // Set the name on the connection; the empty name removes it
     let result = connections.with_connection(conn_id, |conn| {
-        conn.name = Some(name);
+        conn.name = if name.is_empty() { None } else { Some(name) };
         true
     });
     
